@@ -4,11 +4,12 @@
    invariant: in every reachable state the pool holds at least the sum of the recorded stake of all
    validators that are not unstaked, unstaked validators record no stake, no stake is negative
    (App/PoolProofs.v; premises: distinct module addresses, no transaction signed by the pool's own
-   address). The pool may hold MORE only through tokens sent to its address; exact equality against
-   the implementation is the oracle c04 of bin/props/apporacles.py. *)
-From Coq Require Import List ZArith NArith Bool.
+   address). The pool may hold MORE only through tokens sent to its address: in histories in which no send, DAO
+   transfer or award names the pool's address as the recipient it holds EXACTLY the recorded stake, in every
+   reachable state (App/PoolExact.v, C04_pool_holds_exactly_the_stake_all_histories). *)
+From Coq Require Import List ZArith NArith Bool Lia.
 From PM Require Import Base.Bytes Store.KV Store.MergeProofs App.QueueProofs Num.IntModel Num.DecModel Num.DecProofs
-  App.Model App.BankProofs App.TxProofs App.KeyProofs App.PosProofs App.IndexProofs App.PoolProofs App.Examples App.Invariants.
+  App.Model App.BankProofs App.TxProofs App.KeyProofs App.PosProofs App.IndexProofs App.PoolProofs App.PoolExact App.Examples App.Invariants.
 Import ListNotations.
 Local Open Scope Z_scope.
 
@@ -34,6 +35,34 @@ Theorem C04_genesis MA s0 gvals dao s ups : ma s0 = MA -> bank_ok s0 -> vals_ok 
   (forall g, In g gvals -> 0 <= snd g) -> ssum (vals s0) + gsum gvals <= bal s0 (m_pool MA) ->
   init_chain s0 gvals dao = Some (s, ups) -> pool_ok MA s.
 Proof. exact (init_chain_pool MA s0 gvals dao s ups). Qed.
+(* ... and not a token more, unless somebody sends coins to the pool's own address *)
+Theorem C04_pool_holds_exactly_the_stake_all_histories MA ops s s' :
+  px MA s -> Forall (op_nogift MA) ops -> run ops s = Some s' -> px MA s' /\ bal s' (m_pool MA) = ssum (vals s').
+Proof. intros H F E. pose proof (run_px MA ops s s' H F E) as H'. split; [exact H'|]. exact (pool_holds_exactly_the_recorded_stake MA s' H'). Qed.
+Theorem C04_exact_step MA s o s' : px MA s -> op_nogift MA o -> step s o = Some s' -> px MA s'.
+Proof. exact (step_px MA s o s'). Qed.
+Theorem C04_exact_genesis MA s0 gvals dao s ups : ma s0 = MA -> bank_ok s0 -> vals_ok (vals s0) -> mods_distinct MA ->
+  (forall g, In g gvals -> aget (vals s0) (g_addr g) = None) -> NoDup (map g_addr gvals) ->
+  (forall g, In g gvals -> 0 <= snd g) -> (forall g, In g gvals -> g_addr g <> m_pool MA) ->
+  nv MA s0 -> na MA s0 -> ssum (vals s0) + gsum gvals = bal s0 (m_pool MA) ->
+  init_chain s0 gvals dao = Some (s, ups) -> px MA s.
+Proof. exact (init_chain_px MA s0 gvals dao s ups). Qed.
+Example C04_ex_exact_premises : (exists s ups, ex_genesis = Some (s, ups) /\ px ex_ma s) /\ Forall (op_nogift ex_ma) ex_ops.
+Proof.
+  split.
+  - destruct ex_genesis as [[s ups]|] eqn:E; [|vm_compute in E; discriminate]. exists s, ups. split; auto.
+    unfold ex_genesis in E. apply (init_chain_px ex_ma ex_s0 [(A1, [11]%N, 2000000)] 500 s ups); [reflexivity|exact ex_s0_bank_ok| | | | | | | | | |exact E].
+    + split; [exact I|]. intros a v Ea. discriminate Ea.
+    + repeat split; discriminate.
+    + intros g [<-|[]]. reflexivity.
+    + repeat constructor. intros [].
+    + intros g [<-|[]]. cbn. lia.
+    + intros g [<-|[]]. discriminate.
+    + reflexivity.
+    + intros amt [].
+    + reflexivity.
+  - repeat constructor; cbn; try discriminate; auto.
+Qed.
 (* what the invariant says *)
 Theorem C04_pool_ok_reading MA s : pool_ok MA s ->
   (ssum (vals s) <= bal s (m_pool MA)) /\ (forall a v, get_val s a = Some v -> 0 <= v_tokens v /\ (v_status v = 0%N -> v_tokens v = 0)).
@@ -50,3 +79,4 @@ Proof. vm_compute. repeat split; reflexivity. Qed.
 Print Assumptions C04_stake_exact_partial.
 Print Assumptions C04_pool_backs_stake_all_histories.
 Print Assumptions C04_genesis.
+Print Assumptions C04_pool_holds_exactly_the_stake_all_histories.
